@@ -88,6 +88,17 @@ def thorough(pid, ctx, root, seed):
           f'{len(missed)} unexpected, {len(skipped)} skipped (anchor text absent on this tree)')
     for m in missed:
         print(f'ANALYSIS-ERROR property={pid} self-test: {m}')
+    try:
+        from .sweep import sweep
+        from .index import Index
+        from .purity import Purity
+        ix = Index(base)
+        adv = sweep(pid, base, ix, Purity(base, ix))
+    except Exception as ex:                      # the sweep is advisory: it must never break a check
+        adv = [f'sweep failed: {type(ex).__name__}: {ex}']
+    for a in adv[:40]:
+        print(f'  ADVISORY {a}')
+    ctx.advisories = list(ctx.advisories) + adv
     ctx.extra['selftest'] = {'mutants': n_mut, 'benign': n_ben, 'skipped': skipped, 'unexpected': missed, 'results': results}
     ctx.tier = 'thorough'
     level = LEVELS.get(pid, 'other')
